@@ -225,7 +225,7 @@ def run_case(case: Case, rep, want=("C01", "C03"), timeout=20.0, validate=True):
             for n in of_names:
                 off[n] = o
                 o += r.size(n)
-            has_abs = any(n_.op == "abs" for n_ in nodes)
+            has_abs = any(n_.op in ("abs", "re") for n_ in nodes)
             for (wn, wk, wv) in invars:
                 if wn in case.skip_wrt:
                     continue
